@@ -365,7 +365,41 @@ class LifecycleToy(Slice):
 
 
 def slices():
-    return [LifecycleRv(), LifecycleToy()]
+    return [LifecycleRv(), LifecycleToy(), LongRun()]
 
 
-BUDGET = {"quick": {"lifecycle-rv": 700, "lifecycle-toy": 500}, "thorough": {"lifecycle-rv": 20000, "lifecycle-toy": 15000}}
+class LongRun(Slice):
+    """run() is 'step until done' however long that takes: a program of more than a million cycles
+    (nothing in the property bounds the length of a run)"""
+    name = "long-run"
+    case_timeout = 150
+
+    def exhaustive(self, tier):
+        yield {"iterations": 340000, "mode": "single_stage_pipeline"}
+        if tier == "thorough":
+            yield {"iterations": 210000, "mode": "five_stage_pipeline"}
+
+    def gen(self, rng, index, tier):
+        return {"iterations": 340000, "mode": "single_stage_pipeline"}
+
+    def run(self, case, model):
+        from architecture_simulator.simulation.riscv_simulation import RiscvSimulation
+        n = case["iterations"]
+        sim = RiscvSimulation(mode=case["mode"])
+        sim.load_program(f"li t0, {n}\nloop:\naddi t0, t0, -1\naddi t1, t1, 1\nbne t0, zero, loop\nli a7, 93\nli a0, 42\necall")
+        sim.run()
+        f = []
+        got = (sim.is_done(), sim.state.exit_code, int(sim.state.register_file.registers[6]), int(sim.state.register_file.registers[5]),
+               sim.state.performance_metrics.instruction_count)
+        want = (True, 42, n, 0, 3 * n + 5)
+        if got != want:
+            f.append(("violation", f"run() of a {3 * n + 5}-instruction countdown returned with (done, exit code, t1, t0, instruction count) = {got}, "
+                                   f"stepping until done gives {want}"))
+        return f, {"million-cycles" if 3 * n + 5 > 1000000 or case["mode"] != "single_stage_pipeline" else "short"}
+
+    def required_classes(self, tier):
+        return ["million-cycles"]
+
+
+BUDGET = {"quick": {"lifecycle-rv": 700, "lifecycle-toy": 500, "long-run": "exhaustive"},
+          "thorough": {"lifecycle-rv": 20000, "lifecycle-toy": 15000, "long-run": "exhaustive"}}
